@@ -30,7 +30,7 @@ func hasGo(fn *ssa.Function) bool {
 // result of a same-package helper called on the same receiver whose every return is &recv.f.
 func counterAddrFields(v ssa.Value, fn *ssa.Function) ([]string, bool) {
 	if fa, ok := v.(*ssa.FieldAddr); ok && len(fn.Params) > 0 && fa.X == ssa.Value(fn.Params[0]) {
-		return []string{an.FieldOf(fa).Name()}, true
+		return []string{an.FieldName(an.FieldOf(fa))}, true
 	}
 	call, ok := v.(*ssa.Call)
 	if !ok {
@@ -50,7 +50,7 @@ func counterAddrFields(v ssa.Value, fn *ssa.Function) ([]string, bool) {
 		if !ok || fa.X != ssa.Value(cal.Params[0]) {
 			return nil, false
 		}
-		out = append(out, an.FieldOf(fa).Name())
+		out = append(out, an.FieldName(an.FieldOf(fa)))
 	}
 	return out, len(out) > 0
 }
@@ -349,14 +349,14 @@ func runC05(c *core.Ctx, o Options) {
 			if sel, ok := in.(*ssa.Select); ok {
 				for _, st := range sel.States {
 					if st.Dir == 1 /* SendOnly */ && st.Send == ssa.Value(hraw.Params[1]) {
-						if f, _ := an.LoadedField(st.Chan); f != nil && f.Name() == "out" {
+						if f, _ := an.LoadedField(st.Chan); f != nil && an.FieldName(f) == "out" {
 							okEnq = true
 						}
 					}
 				}
 			}
 			if snd, ok := in.(*ssa.Send); ok && snd.X == ssa.Value(hraw.Params[1]) {
-				if f, _ := an.LoadedField(snd.Chan); f != nil && f.Name() == "out" {
+				if f, _ := an.LoadedField(snd.Chan); f != nil && an.FieldName(f) == "out" {
 					okEnq = true
 				}
 			}
